@@ -643,3 +643,31 @@ Proof. vm_compute. split; reflexivity. Qed.
 Example ex_law_hypotheses :
   (forall x, 0 <= x -> 0 <= ex_law x) /\ (forall x y, 0 <= x -> x <= y -> ex_law x <= ex_law y).
 Proof. unfold ex_law. split; intros; lra. Qed.
+
+(* ------------------------------------------------------------------ the restriction 0 < Lmax of every point is needed
+   [multi_equals_single] is false of the faithful model when the FIRST point has maximum load 0 (an unloaded
+   point; loads 0 * base are still "scaled versions of each other"): every edge of point 0 is 0, the search for
+   |0| returns class 1, and every other point gets its class-1 value, whatever its load; loads above the other
+   points' maxima are not rejected.  (Known finding C07/zero-first-point on the implementation.) *)
+Theorem multi_equals_single_refuted_zero_first :
+  exists (Lmaxs : list Q) (c : Q),
+    Lmaxs <> [] /\ Forall (fun Lm => 0 <= Lm) Lmaxs /\
+    ~ match mbinned ex_law Lmaxs 10 10 (map (Qmult c) Lmaxs) with
+      | MVal qs => Forall2 (fun Lm q => exists q', binned ex_law Lm 10 10 (c * Lm) = Val q' /\ q' == q) Lmaxs qs
+      | MErr => Forall (fun Lm => binned ex_law Lm 10 10 (c * Lm) = Err) Lmaxs
+      end.
+Proof.
+  exists [0; 200], (11 # 20). split; [discriminate|]. split; [repeat constructor; lra|].
+  assert (E : exists a b, mbinned ex_law [0; 200] 10 10 (map (Qmult (11 # 20)) [0; 200]) = MVal [a; b] /\ b == 60).
+  { eexists. eexists. split; [vm_compute; reflexivity|]. reflexivity. }
+  destruct E as (a & b & -> & Hb). intro H.
+  inversion H as [|? ? ? ? _ H2]; subst. inversion H2 as [|? ? ? ? (q' & Hq & Hq') _]; subst.
+  assert (E2 : exists r, binned ex_law 200 10 10 ((11 # 20) * 200) = Val r /\ r == 360).
+  { eexists. split; [vm_compute; reflexivity|]. reflexivity. }
+  destruct E2 as (r & Hr & Hr'). rewrite Hr in Hq. injection Hq as <-. rewrite Hr', Hb in Hq'. discriminate.
+Qed.
+
+(* ... and an out-of-range load of the other points is not rejected *)
+Theorem multi_range_refuted_zero_first :
+  mres_eqb (mbinned ex_law [0; 200] 10 10 [0; 600]) (MVal [0; 60]) = true /\ binned ex_law 200 10 10 600 = Err.
+Proof. split; vm_compute; reflexivity. Qed.
